@@ -187,7 +187,7 @@ class Case:
         self.lcls, self.rcls, self.ext, self.family, self.size = lcls, rcls, ext, family, size
 
 
-def run_type_cases(cases, target, stats, pre=''):
+def run_type_cases(cases, target, stats, pre='', rejects=True):
     """-> list of (case, observed text)"""
     R = Runner(target)
     bad = []
@@ -231,7 +231,7 @@ def run_type_cases(cases, target, stats, pre=''):
             seen.add(c.i)
             bad.append((c, 'not compatible with %s' % tname(c.type)))
     for c in cases:
-        if c.type is not None:
+        if c.type is not None or not rejects:
             continue
         stats['transitions'] += 1
         stats['expected_reject'] += 1
@@ -255,9 +255,9 @@ def key_of(c, obs):
     return 'type/%s/%s/%s-x-%s' % (c.stratum, c.opclass, c.lcls, c.rcls)
 
 
-def finish_job(cases, target, stats, pre=''):
+def finish_job(cases, target, stats, pre='', rejects=True):
     """run, replay disagreements alone, cap per family -> records"""
-    bad = run_type_cases(cases, target, stats, pre)
+    bad = run_type_cases(cases, target, stats, pre, rejects)
     recs, perkey = [], {}
     for c, obs in bad:
         key = key_of(c, obs)
@@ -286,11 +286,11 @@ def newstats():
     return {'transitions': 0, 'expected_reject': 0, 'runs': 0, 'capped': {}, 'unconfirmed_on_replay': 0, 'cases': 0, 'disagreements': 0}
 
 
-def pack(spec, cases, target, stats, pre=''):
+def pack(spec, cases, target, stats, pre='', rejects=True):
     for i, c in enumerate(cases):
         c.i = i
     stats['cases'] = len(cases)
-    recs = finish_job(cases, target, stats, pre)
+    recs = finish_job(cases, target, stats, pre, rejects)
     cells = {c.cell for c in cases}
     types = {tname(c.type) for c in cases if c.type is not None}
     okc = [c for c in cases if c.type is not None]
@@ -610,7 +610,7 @@ def ty2(bases, second):
 
 
 def ty2_types(quick):
-    return ty2(TY2_BASES_Q, ('P', 'PC', 'CP', 'A2', 'A0', 'F0', 'F1')) if quick else ty2(TY2_BASES_T, CTORS)
+    return ty2(TY2_BASES_Q, ('P', 'PC', 'CP', 'A2', 'F1')) if quick else ty2(TY2_BASES_T, CTORS)
 
 
 def uses_noproto(t):
@@ -725,6 +725,8 @@ def _job(spec):
     stats = newstats()
     if stratum == 'triples':
         cases = triple_cases(spec[1], spec[2], tgt)
+        # validity of a triple does not depend on the target: the quick tier runs the expected rejections on x86_64 only
+        return pack(spec, cases, target, stats, '', spec[3] or target == TARGETS[0])
     elif stratum == 'unary':
         cases = unary_cases(tgt)
     elif stratum == 'lits':
@@ -876,7 +878,7 @@ def main(chk):
     chunks = [names[i:i + 20] for i in range(0, len(names), 20)]
     for target in TARGETS:
         if chk.want('triples'):
-            jobs += [('triples', op, ch, target) for op in BINOPS for ch in chunks]
+            jobs += [('triples', op, ch, not q, target) for op in BINOPS for ch in chunks]
         for st in ('unary', 'lits', 'calls'):
             if chk.want(st):
                 jobs.append((st, target))
@@ -1076,6 +1078,9 @@ def main(chk):
         'gcc gives bit-fields a private type in _Generic; R follows the clang reading; gcc 12 has no fixed-underlying-type enums and neither '
         'witness has typeof_unqual, so those cases rest on R alone unless cproc disagrees with R (then they are ambiguous)',
         'nested expressions beyond one operator and random pairs of derived types are covered by the decay (depth <= 3/4) and Ty2 (constructor depth <= 2) strata only',
+        'quick tier: triples R calls invalid are run (one run each) on x86_64 only because their validity does not depend on the target; valid triples are '
+        'typed on all three targets; redeclaration and pointer-initialisation judgements of Ty2 run on x86_64; the thorough tier runs the rejections on all targets',
+        'u8 character constants and string literals are not judged (char in C11, char8_t in C23 which cproc follows)',
     ])
 
 
